@@ -650,7 +650,10 @@ fn eval_c27(case: &FmtCase, acc: &Acc) -> Vec<Violation> {
     match with_ls(|ls| format_once(ls, case, &f1)) {
         Ok(f2) => {
             if f2 != f1 {
-                let ctx = if c0.is_empty() { "no_comments".to_string() } else { comment_context(&case.text, 0) };
+                // the context of the first line comment if there is one (line comments are what the known
+                // instability is about), else of the first comment
+                let idx = c0.iter().position(|c| c.starts_with("//")).unwrap_or(0);
+                let ctx = if c0.is_empty() { "no_comments".to_string() } else { comment_context(&case.text, idx) };
                 out.push(mkv(&format!("formatting_not_idempotent({ctx})"), format!("{short} [{opts}]: format(x) = {:?} but format(format(x)) = {:?}", f1, f2)));
             }
         }
@@ -683,6 +686,17 @@ fn run_c27(tier: Tier, replay: Option<&str>) -> i32 {
                 let mut s = t.clone();
                 s.insert_str(*g, c);
                 texts.push(s);
+            }
+        }
+        // two comments in the same gap: every ordered pair of kinds, plus a block comment over two lines
+        let same_gap_items = ["// c1\n", "/* c2 */ ", "/* // c3 */\n", "/* c4\n   c4 */\n"];
+        for g in &gaps {
+            for c1 in &same_gap_items {
+                for c2 in &same_gap_items {
+                    let mut s = t.clone();
+                    s.insert_str(*g, &format!("{c1}{}", c2.replace('c', "d")));
+                    texts.push(s);
+                }
             }
         }
         // two comments (thorough: all pairs of gaps; quick: neighbouring gaps)
@@ -724,7 +738,7 @@ fn run_c27(tier: Tier, replay: Option<&str>) -> i32 {
         &acc,
         Finish {
             level: "exploration",
-            rule: "texts: the 23 formatter inputs of the repository and 6 small grammars using every PAR feature, each of the latter with one comment (line, block, block containing `//`) in every token gap (start and end of file included) and with two comments in every pair of gaps (quick: neighbouring gaps); x all 12 option combinations (empty_line_after_prod x prod_semicolon_on_nl x max_line_length in {20,100,1000}); formatted through the real formatting handler (hook H3). Oracle: parol reads the formatted text and yields a structurally equal GrammarConfig; the comments are the same sequence; format(format(x)) = format(x).".into(),
+            rule: "texts: the 23 formatter inputs of the repository and 6 small grammars using every PAR feature, each of the latter with one comment (line, block, block containing `//`) in every token gap (start and end of file included) with two comments of every ordered pair of kinds (line, block, block containing `//`, block over two lines) in the same gap, and with two comments in every pair of gaps (quick: neighbouring gaps); x all 12 option combinations (empty_line_after_prod x prod_semicolon_on_nl x max_line_length in {20,100,1000}); formatted through the real formatting handler (hook H3). Oracle: parol reads the formatted text and yields a structurally equal GrammarConfig; the comments are the same sequence; format(format(x)) = format(x).".into(),
             exhaustive_note: "all listed texts, placements and option combinations unless capped=true".into(),
             assumptions: vec!["comments are extracted by a PAR-aware scan that skips string, raw-string and regex literals".into()],
             extra: json!({}),
